@@ -155,8 +155,7 @@ def check_number(check, P):
             check.violation("R3", "number:render-idiom",
                             f"number() returns {r!r}: not a recognised fixed-point rendering of its argument "
                             "(accepted: numpy.format_float_positional(v, precision=<decimal places>, fractional=True) or f'{v:.{<decimal places>}f}')", [d])
-    if n < 2 or returns < 1:
-        raise AnalysisError(f"C08.R2: number() yields {n} abstract paths / {returns} rendering returns (floor 2/1)")
+    check.floor(not (n < 2 or returns < 1), f"C08.R2: number() yields {n} abstract paths / {returns} rendering returns (floor 2/1)")
     return n
 
 
@@ -219,8 +218,7 @@ def check_parameters(check, P):
                 check.violation("R4", f"parameters:{label}:separators", f"parameters() does not separate words by exactly one space: {sv!r}", [dtxt])
             else:
                 check.ok("R4", f"parameters[{label}]")
-    if n < 5:
-        raise AnalysisError(f"C08.R4: only {n} paths of parameters() analysed")
+    check.floor(not (n < 5), f"C08.R4: only {n} paths of parameters() analysed")
     return n
 
 
@@ -235,8 +233,7 @@ def check_line_endings_writer(check, P):
                     if isinstance(n, ast.Attribute) and isinstance(n.ctx, ast.Store) and n.attr == "_line_endings":
                         writers.append((mod.name, fn.name, n.lineno))
     names = {w[1] for w in writers}
-    if not writers:
-        raise AnalysisError("C08.R5: no store to _line_endings found (anchor vanished)")
+    check.floor(not (not writers), "C08.R5: no store to _line_endings found (anchor vanished)")
     for m, fn, line in writers:
         if fn in ("__init__", "set_line_endings"):
             check.ok("R5", f"_line_endings stored in {fn}")
@@ -264,8 +261,7 @@ def run(check, repo, tier):
         if len(check.samples) < 8 and r["items"]:
             check.sample({"command": r["command"], "context": r["ctx"], "abstract_paths": r["paths"],
                           "statement": r["items"][0][2] if r["items"][0][0] == "ok" else r["items"][0][3]})
-    if n_ok < 500:
-        raise AnalysisError(f"C08.R1: only {n_ok} delivered statements analysed (floor 500)")
+    check.floor(not (n_ok < 500), f"C08.R1: only {n_ok} delivered statements analysed (floor 500)")
     P = cr.program
     n2 = check_number(check, P)
     n4 = check_parameters(check, P)
